@@ -7,6 +7,7 @@ CONSTANTS Producers = {"p1", "p2", "p3", "p4"}
           Locks = TRUE
           RealTime = FALSE
           Disconnect = TRUE
+          FatalEvery = 2
           NMsgs = 2
           ScriptSet = {"sync"}
           Script2Set = {"none"}
